@@ -11,7 +11,11 @@
    All theorems quantify over EVERY service (any number of methods, any names, any types), every
    request / response stream (any length) and every handler behaviour.
 
-   PARTIAL: what grpclib's transport does (HTTP/2 framing, flow control, deadline arithmetic,
+   PARTIAL: the model treats a request / response stream as a list: it fixes which messages travel and in
+   what order, NOT how sending and receiving interleave in time.  That ServiceStub._stream_stream keeps
+   sending (background task) while the caller consumes responses — needed by conversational callers whose
+   request i+1 depends on response i — is asyncio scheduling; only the harness checks it (ping-pong calls
+   under a watchdog for every stream-stream method).  Likewise what grpclib's transport does (HTTP/2 framing, flow control, deadline arithmetic,
    cancellation) and asyncio scheduling are not in the model; the model takes from grpclib only
    "messages of a stream arrive in order, then the trailer status" plus the send-side checks of
    grpclib.server.Stream that decide which messages/status reach the caller.  The real calls of
@@ -151,6 +155,13 @@ Theorem C11_kwargs : forall st sd sm ct cd cm,
 Proof. exact resolve_kwargs_spec. Qed.
 Print Assumptions C11_kwargs.
 
+(* the precedence test is "is None", not truthiness: a call-level value that is SET BUT FALSY (0 stands for
+   timeout=0 / metadata={} / [] / ()) still overrides the stub-level default, for every stub-level value *)
+Theorem C11_kwargs_falsy_is_set : forall (A : Type) (falsy : A) (s : option A),
+  resolve1 s (Some falsy) = Some falsy /\ resolve1 s None = s.
+Proof. exact resolve1_falsy. Qed.
+Print Assumptions C11_kwargs_falsy_is_set.
+
 (* ... and whatever the call, these resolved values are what reaches channel.request *)
 Theorem C11_kwargs_passed : forall svc im skw py a ckw o,
   call svc im skw py a ckw = Some o -> ri_kw (ob_req o) = resolve_kwargs skw ckw.
@@ -232,3 +243,8 @@ Proof.
   split; [|vm_compute; reflexivity].
   unfold pynames_distinct. cbn. intros H. inversion H as [|? ? Hn _]. apply Hn. left. reflexivity.
 Qed.
+(* Some falsy is not None: stub metadata 31 / timeout 11, call-level metadata={} and timeout=0 (both 0 here) win *)
+Example C11_ex_kwargs_falsy :
+  resolve_kwargs (Kw (Some 11) (Some 21) (Some 31)) (Kw (Some 0) None (Some 0)) = Kw (Some 0) (Some 21) (Some 0)
+  /\ resolve_kwargs (Kw (Some 11) (Some 21) (Some 31)) (Kw None None None) = Kw (Some 11) (Some 21) (Some 31).
+Proof. split; reflexivity. Qed.
